@@ -160,6 +160,14 @@ impl C03 {
             Some(c) => c,
             None => {
                 ctx.count("ref_unmodelled_or_undefined");
+                // blind-spot accounting: words the lifter accepts but the reference does not model
+                if ctx.thorough() || rng.chance(1, 8) {
+                    let bytes = word.to_le_bytes();
+                    if let Ok(Ok(_)) = guard(|| AArch64::new().translate_block(&bytes, pc, &Options::default())) {
+                        let op = bad64::decode(word, pc).map(|i| format!("{:?}", i.op())).unwrap_or_else(|_| "?".into());
+                        ctx.count(&format!("falcon_accepts_unmodelled:{}", op));
+                    }
+                }
                 return;
             }
         };
